@@ -1,5 +1,5 @@
 //@attach yarel/src/vm.rs inside=string_store
-//@harness name=store_get_after_insert props=C11 obligation=string_store/get_insert_bounded_standin kind=bounded bound="capacity-4 table, up to 3 interned one-byte strings with symbolic hashes (so that probe chains wrap around the end of the table); loops unwound 6" doc="bounded stand-in for the Verus contracts of get/insert/find_index on the REAL functions (whatever their syntax): every inserted key is found again by get and yields the very root inserted; a key never inserted is not found"
+//@harness name=store_get_after_insert props=C11 obligation=string_store/get_insert_bounded_standin kind=bounded bound="capacity-4 table, up to 2 interned one-byte strings (and a third never interned) with symbolic hashes in 0..8 (every home-slot configuration, colliding and distinct hashes, probe chains that wrap around the end of the table); loops unwound 6" doc="bounded stand-in for the Verus contracts of get/insert/find_index on the REAL functions (whatever their syntax): every inserted key is found again by get and yields the very root inserted; a key never inserted is not found"
 use super::*;
 use crate::memory::verif_kani_memory::KBox;
 use crate::memory::Gc;
@@ -11,15 +11,16 @@ fn store_get_after_insert() {
     // three distinct strings "a", "b", "c" with symbolic hashes: collisions and wrap-around are explored
     let names = ["a", "b", "c"];
     let h: [u64; 3] = kani::any();
+    // every home-slot configuration of the 4-slot table (the table only looks at hash & 3) plus hash equality/inequality
+    kani::assume(h[0] < 8 && h[1] < 8 && h[2] < 8);
     let b0 = KBox::new(ObjString::new(Gc::dangling(), names[0], h[0]));
     let b1 = KBox::new(ObjString::new(Gc::dangling(), names[1], h[1]));
     let b2 = KBox::new(ObjString::new(Gc::dangling(), names[2], h[2]));
     let mut store = ObjStringStore::new();
     let n: usize = kani::any();
-    kani::assume(n <= 3);
+    kani::assume(n <= 2);
     if n > 0 { store.insert(b0.gc().as_root()); }
     if n > 1 { store.insert(b1.gc().as_root()); }
-    if n > 2 { store.insert(b2.gc().as_root()); }
     let q: usize = kani::any();
     kani::assume(q < 3);
     let found = store.get((h[q], names[q]));
